@@ -6,7 +6,7 @@ from ..model import AnalysisError, stmt_text, Ext
 from ..symval import Evaluator, Tup, Obj, NoneV, NONE, CallV, Bool, Ref, IteV, Str, DictV, argkey, _const_int, _single_atom
 from ..symcheck import check_equal, compare_values, show
 from ..rules import where
-from ..mutate import replace_in_function, substitute
+from ..mutate import replace_in_function, substitute, text_variant
 
 META = {
     'level': 'proof',
@@ -312,4 +312,5 @@ def controls(repo):
             return n
         substitute(fn, pred, make, limit=1, expect=1)
     out.append(('distance-through-angle-converter', repo.variant({'api/app.py': replace_in_function(src, 'handle_vincdir', dist_conv)}), 'handle_vincdir::arg::ell_dist'))
+    out.append(('identity-test-on-a-string', text_variant(repo, 'api/app.py', "    angle = dd_to_angle_type[to_angle_type]\n", "    angle = dd_to_angle_type[to_angle_type if to_angle_type is not 'dd' else 'dd']\n"), 'identity-test'))
     return out
